@@ -218,8 +218,9 @@ def borrow(R, P, rule, prog, fn, *args, floor=1, only=None):
         R.unknown("%s/%s" % (rule, u["rule"]), u["instance"], u["where"], u["why"])
     for t in tmp.trusted:
         R.trust(t)
-    if n + len(tmp.findings) < floor:
-        raise AnalysisError("borrowed rule %s matched %d instances (< %d)" % (rule, n + len(tmp.findings), floor))
+    confirmed = sum(1 for u in tmp.unproven if "confirmed by folding" in (u.get("why") or ""))     # instance matched; shape unknown, meaning folded
+    if n + len(tmp.findings) + confirmed < floor:
+        raise AnalysisError("borrowed rule %s matched %d instances (< %d)" % (rule, n + len(tmp.findings) + confirmed, floor))
     return n
 
 
